@@ -423,6 +423,39 @@ func (e *Exec) model(s *State, c *ssa.Call, fn *ssa.Function, full string, args 
 		idx := mkVar(fmt.Sprintf("indexrune!%s!%d", a, r), SInt)
 		s.assume(mkAnd(mkCmp(">=", idx, mkInt(-1)), mkCmp("<", idx, e.atomLen(s, a))))
 		return ret(idx)
+	case "reflect.TypeOf":
+		iv, ok := args[0].(Iface)
+		if !ok || iv.Dyn == nil {
+			unsupported("reflect.TypeOf of a nil or unmodelled interface")
+		}
+		return ret(Iface{Dyn: errDynType, V: Opaque{Tag: "rtype:" + types.TypeString(iv.Dyn, nil)}})
+	case "dario.cat/mergo.WithTransformers":
+		return ret(Closure{})
+	case "dario.cat/mergo.Merge":
+		// Assumed (external): Merge(dst, src, ...) may write to any memory reachable
+		// from dst through pointers and maps (it merges maps in place and recurses
+		// through pointers); with WithAppendSlice slices are re-allocated by append,
+		// not written in place; src is only read. It fails or succeeds.
+		e.writeReachable(s, args[0], map[int]bool{}, "written-by:mergo.Merge")
+		s2 := s.clone()
+		return []Out{{St: s, Rets: []Val{Iface{}}}, {St: s2, Rets: []Val{Iface{Dyn: errDynType, V: Opaque{Tag: "mergo-error"}}}}}, true
+	case "github.com/mitchellh/go-wordwrap.WrapString":
+		// Assumed (external): some string; nothing is known about it.
+		t := textArg(args[0])
+		return ret(atom(pureAtomName("wrapped", []string{t.String()})))
+	case "strings.Split":
+		// Only the line split is modelled: strings.Split(x, "\n") yields pieces that
+		// contain no newline. Two generic pieces stand for any number of them (the
+		// loop body that consumes them is the same for each).
+		t := textArg(args[0])
+		if sep, ok := textArg(args[1]).concrete(); !ok || sep != "\n" {
+			unsupported("strings.Split with a separator other than \"\\n\"")
+		}
+		arr := s.alloc(&Agg{Typ: types.NewArray(types.Typ[types.String], 2), Elems: []Val{
+			atom(pureAtomName("line0", []string{t.String()})),
+			atom(pureAtomName("line1", []string{t.String()})),
+		}})
+		return ret(SliceV{Arr: arr, Lo: 0, Len_: 2, Cap: 2})
 	case "strings.TrimSpace":
 		t := textArg(args[0])
 		if cs, ok := t.concrete(); ok {
@@ -548,7 +581,25 @@ func (e *Exec) builtin(s *State, c *ssa.Call, b *ssa.Builtin, args []Val) []Out 
 				}
 				return ret(lv)
 			}
-			unsupported("len of mixed text")
+			// literals count exactly, atoms through their length variable; a formatted
+			// number has no modelled length
+			total := mkInt(0)
+			for _, f := range v.Frags {
+				switch f.Kind {
+				case FLit:
+					total = mkArith("+", total, mkInt(int64(len(f.Lit))))
+				case FAtom:
+					lv := mkVar("len!"+f.Atom, SInt)
+					if _, done := s.Ghost["lenfact:"+f.Atom]; !done {
+						s.Ghost["lenfact:"+f.Atom] = tTrue
+						s.assume(mkAnd(mkCmp(">=", lv, mkInt(0)), mkIff(mkEq(lv, mkInt(0)), atomEmptyVar(f.Atom))))
+					}
+					total = mkArith("+", total, lv)
+				default:
+					unsupported("len of text holding a formatted number")
+				}
+			}
+			return ret(total)
 		case MapV:
 			if v.Cell == 0 {
 				return ret(mkInt(0))
@@ -674,7 +725,31 @@ func (e *Exec) applyContract(s *State, c *ssa.Call, fn *ssa.Function, con *Contr
 	// 3. results
 	sig := fn.Signature
 	joint := false
-	for _, sc := range con.clauses("shape") {
+	resClauses := con.clauses("shape")
+	// The contract under verification may narrow a callee's joint results to the
+	// alternatives its scenario is about: `option results-of <callee> = (..) | (..)`.
+	if e.conUnder != nil {
+		for _, oc := range e.conUnder.clauses("option") {
+			raw := strings.TrimSpace(oc.Raw)
+			if !strings.HasPrefix(raw, "results-of ") {
+				continue
+			}
+			rest := strings.TrimSpace(strings.TrimPrefix(raw, "results-of "))
+			eq := strings.Index(rest, "=")
+			if eq < 0 || strings.TrimSpace(rest[:eq]) != con.target() {
+				continue
+			}
+			var kept []*Clause
+			for _, sc := range resClauses {
+				if q := strings.Index(sc.Raw, "="); q >= 0 && strings.TrimSpace(sc.Raw[:q]) == "results" {
+					continue
+				}
+				kept = append(kept, sc)
+			}
+			resClauses = append(kept, &Clause{Kind: "shape", Raw: "results =" + rest[eq+1:], Pos: oc.Pos})
+		}
+	}
+	for _, sc := range resClauses {
 		eq := strings.Index(sc.Raw, "=")
 		if eq < 0 || strings.TrimSpace(sc.Raw[:eq]) != "results" {
 			continue
@@ -1083,4 +1158,38 @@ func deepEqualVal(s *State, a, b Val, depth int) (*T, bool) {
 		return mkAnd(cs...), true
 	}
 	return nil, false
+}
+
+// writeReachable overwrites every heap cell reachable from v through pointers,
+// maps and interfaces (not through slice backing arrays) with an opaque value:
+// the footprint an external in-place merger may touch.
+func (e *Exec) writeReachable(s *State, v Val, seen map[int]bool, tag string) {
+	switch x := v.(type) {
+	case Ref:
+		if x.isNil() || seen[x.Cell] {
+			return
+		}
+		seen[x.Cell] = true
+		cur := s.Heap[x.Cell]
+		s.Heap[x.Cell] = Opaque{Tag: tag}
+		e.writeReachable(s, cur, seen, tag)
+	case *Agg:
+		for _, el := range x.Elems {
+			e.writeReachable(s, el, seen, tag)
+		}
+	case MapV:
+		if x.Cell == 0 || seen[x.Cell] {
+			return
+		}
+		seen[x.Cell] = true
+		cur := s.Heap[x.Cell]
+		s.Heap[x.Cell] = Opaque{Tag: tag}
+		if ma, ok := cur.(*MapAgg); ok {
+			for _, el := range ma.Vals {
+				e.writeReachable(s, el, seen, tag)
+			}
+		}
+	case Iface:
+		e.writeReachable(s, x.V, seen, tag)
+	}
 }
